@@ -32,6 +32,17 @@ def _same(a, b):
                                       np.array_equal(x, y, equal_nan=True) for x, y in zip(la, lb))
 
 
+def _close(a, b, rtol=1e-5, atol=1e-7):
+    """equal up to compiler-level floating-point reassociation (attaching an observer changes the
+    XLA program, so the last bits of float32 results may differ although no input of the training
+    computation does)"""
+    la, lb = _leaves(a), _leaves(b)
+    return len(la) == len(lb) and all(
+        x.shape == y.shape and x.dtype == y.dtype and
+        (np.allclose(x, y, rtol=rtol, atol=atol, equal_nan=True) if x.dtype.kind == "f" else np.array_equal(x, y))
+        for x, y in zip(la, lb))
+
+
 def _configs(ctx):
     tab = random_tabular(ctx.rng, p_term=0.1, p_trunc=0.05)
     tabb = random_tabular(ctx.rng, box=True, p_term=0.1, p_trunc=0.05)
@@ -94,7 +105,8 @@ def run(ctx):
                 for tag, cb in cbs.items():
                     out = algo.learn(env, policy, total, key=k0, callback=cb)
                     jax.effects_barrier()
-                    observe(tag + "_same_policy", _same(out, base))
+                    observe(tag + "_same_policy", _close(out, base))
+                    ctx.count("observed-run-bit-identical" if _same(out, base) else "observed-run-equal-up-to-last-bits")
                 if not rec.records:
                     ctx.note("recording backend received no records")
     finally:
